@@ -173,6 +173,14 @@ for _p, _rules in (("C11", ["CAS-EPOCH-BLIND"]), ("C20", ["EBR-REACTIVATE", "REC
                    ("C12", ["OWN-PRIMITIVES", "LINK-TAG", "CW-WINDOW-FRESH"]),
                    ("C14", ["EBR-COLLECT-OUTERMOST", "EBR-REACTIVATE", "EBR-GUARD-COUNT"])):
     registry.PROPS[_p]["rules"] += [x for x in _rules if x not in registry.PROPS[_p]["rules"]]
+# `Snapshot::counted` turns a protected Snapshot into a counted owner: "an Rc however obtained (counted, ..) points to a
+# live object" (C01) needs the count-word side of Snapshot protection - which decrements stamp, how the cascade merges
+# and judges stamps.  "the same cell semantics for AtomicWeak" (C09) compares block addresses: the comparison means
+# "the same object" only while the expected WeakSnapshot's block cannot be recycled, i.e. the deferred-free protocol
+for _p, _rules in (("C01", ["CW-STAMP-ON-DEC", "CW-STAMP-PINNED", "CW-STAMP-MODULAR", "LINK-STAMP", "CW-CASCADE-MERGE",
+                            "CW-CASCADE-DECISION", "CW-UPGRADE-TRACE", "CW-WINDOW-FRESH"]),
+                   ("C09", ["CW-WEAK-PROTOCOL", "CW-DESTRUCT-ORDER"])):
+    registry.PROPS[_p]["rules"] += [x for x in _rules if x not in registry.PROPS[_p]["rules"]]
 for _p, _rules in (("C01", ["CW-ALLOC-INIT", "CW-DEFER-WRAPPER"]), ("C02", ["EBR-DEFAULT-COLLECTOR", "CW-DEFER-WRAPPER"]),
                    ("C03", ["CW-ALLOC-INIT", "CW-DEFER-WRAPPER"]), ("C04", ["CW-ALLOC-INIT"]), ("C10", ["CW-ALLOC-INIT"]),
                    ("C13", ["WRAP-ATOMICS", "EBR-DEFAULT-COLLECTOR", "CW-DEFER-WRAPPER"]),
